@@ -368,6 +368,9 @@ async def sum(iterable: AnyIterable[Any], start: Any = 0) -> Any:
     """
     Sum of ``start`` and all elements in the (async) iterable
     """
+    if isinstance(start, (str, bytes, bytearray)):
+        kind = "strings" if isinstance(start, str) else type(start).__name__
+        raise TypeError(f"sum() can't sum {kind} [use .join(seq) instead]")
     total = start
     async for item in aiter(iterable):
         total = total + item
